@@ -1,4 +1,5 @@
 import RLV.Model.Hist
+import RLV.Lemmas.HistCalls
 /-! C09 — History navigation and search are faithful and non-destructive (property theorems).
 
 `Hist.walk` is the model of `Sources.Walk` (previous-history, next-history, beginning/end-of-history,
@@ -255,6 +256,37 @@ theorem prefix_search_means_prefix (hist cline : List Nat) (h : lineMatches fals
 
 -- non-vacuity: history [one, two, abc] (oldest first), text `t` typed: searching backward shows `two`
 example : (insertMatch { src := [[111, 110, 101], [116, 119, 111], [97, 98, 99]] } [116] 1 true false false).line = [116, 119, 111] := by
+  decide
+
+/-- C09 over any number of commands and CALLS: a user walks up and down the history, types on the line
+being typed, and accepts lines (the typed one, or a stored entry as it is) — any sequence of these, of any
+length, from any history. Whenever the position is on the history, the buffer is EXACTLY the stored entry
+at that position, counted from the newest entry of the history as it is now; and the history itself only
+grew at its end. (`runUnedited` stops at an edit of a history line: the library keeps such an edit with
+the line, which is another matter.) `m` is the history-size limit (−1: none). -/
+theorem walking_and_accepting_show_the_stored_entries (m : Int) (src : List (List Nat)) (ops : List HOp) (s : St)
+    (h : runUnedited m { src := src } ops = .ok s) :
+    (s.hpos = -1 ∨ (1 ≤ s.hpos ∧ s.hpos ≤ s.src.length ∧
+      s.line = s.src.getD ((s.src.length : Int) - s.hpos).toNat [])) ∧
+    ∃ more, s.src = src ++ more := by
+  obtain ⟨i, more, e⟩ := run_inv m ops { src := src } s (inv_start src) h
+  exact ⟨i.oe, more, e⟩
+
+-- non-vacuity, and the defect this theorem did not hold with: history [a, b, c]; up, up shows `b`; accept;
+-- in the next call up, up, up shows `b` (the new last entry), `c`, `b` — with the `Save` of the accepted line
+-- as it was before the fix the third one showed `b` in place of `c`... see `acceptAndNextCallOld`
+example :
+    (match runUnedited (-1) { src := [[97], [98], [99]] } [.up, .up, .accept, .up, .up] with
+      | .ok s => (s.line, s.hpos, s.src) | .error _ => ([0], 0, [])) = ([99], 2, [[97], [98], [99], [98]]) := by
+  decide
+
+example :
+    (match (do
+        let s ← runUnedited (-1) { src := [[97], [98], [99]] } [.up, .up]
+        let s ← acceptAndNextCallOld (-1) s
+        let s ← save s
+        runUnedited (-1) s [.up, .up] : G St) with
+      | .ok s => (s.line, s.hpos) | .error _ => ([0], 0)) = ([98], 2) := by
   decide
 
 end RLV.Props.C09
